@@ -98,8 +98,20 @@ def gen_c11(rnd, sid, method):
         L.append("O wait %d" % i)
     L.append("O tk 1")
     if two:
-        L += ["S spawn 1", "T 1 iv_init", "O wait 4", "T 1 wait_spawn 4", "T 1 iv_main", "T 1 iv_deinit"]
+        L += ["S spawn 1", "T 1 iv_init", "O wait 4", "T 1 wait_spawn 4"]
         L.append("R wait 4 0 0 yield")
+        if rnd.random() < 0.6:
+            # a thread is busy in a callback when SIGCHLD (for a child of the other thread) is
+            # delivered to it, and drops its last interest before it gets back to its loop
+            who = rnd.choice([0, 1])
+            if who == 1:
+                L += ["O tk 5", "T 1 tk_reg 5", "R tk 5 0 1 child %d %d %d" % (rnd.choice([101, 102]), rnd.choice([0, 1]), rnd.choice([0, 9])),
+                      "R tk 5 0 1 wait_unreg 4"]
+            else:
+                L += ["O tk 6", "S tk_reg 6", "R tk 6 0 1 yield", "R tk 6 0 1 child 104 %d %d" % (rnd.choice([0, 1]), rnd.choice([0, 9]))]
+                for i in range(1, n + 1):
+                    L.append("R tk 6 0 1 wait_unreg %d" % i)
+        L += ["T 1 iv_main", "T 1 iv_deinit"]
     ns = rnd.randint(0, 2)
     for k in range(ns):
         L.append("S stranger %d" % (300 + k))
